@@ -164,7 +164,26 @@ func (e *Engine) blockedSig(st *State) []string {
 				// code (e.g. a harness that plays a node through the real routeResponse)
 				continue
 			}
-			out = append(out, fn+":"+opNamesK[g.Pending.Kind]+e.watchSuffix(st, g))
+			d := fn + ":" + opNamesK[g.Pending.Kind] + e.watchSuffix(st, g)
+			// the repository callers of that function (innermost first): a finding's signature
+			// may name any of them, so that it survives the extraction of a helper
+			ncallers := 0
+			seenInner := false
+			for i := len(g.Frames) - 1; i >= 0 && ncallers < 4; i-- {
+				fi := e.info(g.Frames[i].Fn)
+				if !fi.repo {
+					continue
+				}
+				if !seenInner {
+					seenInner = true
+					if g.Frames[i].Fn.String() == fn {
+						continue
+					}
+				}
+				d += " <- " + g.Frames[i].Fn.String()
+				ncallers++
+			}
+			out = append(out, d)
 		}
 	}
 	sort.Strings(out)
